@@ -1,5 +1,6 @@
 import Oas3Model.Proofs.Codec
 import Oas3Model.Proofs.Union
+import Oas3Model.Proofs.EnumCtor
 /-!
 # C02 — generated schema types are faithful JSON codecs for their schemas
 
@@ -413,5 +414,26 @@ theorem C02_frag_union_rejects (fname : Str → Str) (vname : J → Str) (oneOf 
 example : (∀ s ∈ [S.int (some .i32), .arr .str, .bool], frag s = true) ∧
     (∀ s ∈ [S.int (some .i32), .arr .str, .bool], valid true s (st "x") = false) ∧
     (∀ s ∈ [S.int (some .i32), .arr .str, .bool], classes id (fun _ => []) s (st "x") = []) := by decide
+
+/-! ### the enum constructor -/
+
+/-- a string `enum` whose values get pairwise different variant names (no merge happens): the property holds on EVERY document —
+each declared value round-trips to itself, undeclared strings and every other JSON type are refused — for every list of values
+and every naming function.  (Where names collide the second value becomes an alias: class `KnownEnumAliasMerged`,
+`C02_cex_enum_alias`; non-string values: `KnownNonStringEnum`.) -/
+theorem C02_string_enum_good (fname : Str → Str) (vname : J → Str) (vals : List Str)
+    (hn : (vals.map (fun s => vname (.str s))).Nodup) (doc : J) :
+    judge (.enum (vals.map J.str)) (typeOf fname vname (.enum (vals.map J.str))) doc = true :=
+  good_string_enum fname vname vals hn doc
+
+/-- so arrays (to any depth) of such enums satisfy the property too, by the array lifting -/
+theorem C02_string_enum_array_good (fname : Str → Str) (vname : J → Str) (vals : List Str)
+    (hn : (vals.map (fun s => vname (.str s))).Nodup) (doc : J)
+    (hc : classes fname vname (.arr (.enum (vals.map J.str))) doc = []) :
+    judge (.arr (.enum (vals.map J.str))) (typeOf fname vname (.arr (.enum (vals.map J.str)))) doc = true :=
+  C02_arr_lift fname vname (.enum (vals.map J.str)) (fun d _ => good_string_enum fname vname vals hn d) doc hc
+
+/-- non-vacuity: `enum: [a, b, foo-bar]` under a naming function that keeps the values apart -/
+example : (["a".toList, "b".toList, "foo-bar".toList].map (fun s => (fun (j : J) => match j with | .str x => x | _ => []) (.str s))).Nodup := by decide
 
 end Oas3.Codec.C02
